@@ -182,6 +182,7 @@ type run struct {
 
 	faults []faultRec
 
+	yield   func(site string)
 	lsnSeq  [][]string // per listener: rendered callback sequence
 	real    *realFacts
 	logAll  []string
@@ -259,10 +260,18 @@ func (r *run) logf(format string, a ...interface{}) {
 
 // Step implements seams.Sink.
 func (r *run) Step(ev *seams.Event) seams.FaultKind {
+	fk := r.step(ev)
+	if r.yield != nil {
+		r.yield("seam:" + ev.Kind)
+	}
+	return fk
+}
+
+func (r *run) step(ev *seams.Event) seams.FaultKind {
 	r.seq++
 	ev.Seq = r.seq
 	r.now += int64(core.Mix(r.sc.LatSeed, uint64(r.seq))%5_000_000) + 1
-	r.logf("%d t=%d %s %s %s [%s %s]", ev.Seq, r.now, ev.Kind, ev.Path, ev.Detail, r.phase, r.curRule)
+	r.logf("%d t=%d %s %s %s [%s %s]", ev.Seq, r.now, ev.Kind, ev.Path, ev.Detail, r.phase, normName(r.curRule))
 	if r.aborted != "" {
 		return seams.NoFault
 	}
@@ -363,8 +372,12 @@ func (r *run) order(site string, keys []string) []string {
 	}
 	r.loopIdx++
 	out := ApplyPerm(keys, perm)
-	r.res.SchedHash = core.Mix(r.res.SchedHash, core.HashStr(strings.Join(out, ",")))
-	r.logf("-- loop %d order %s", r.loopIdx, strings.Join(out, ","))
+	shown := make([]string, len(out))
+	for i, k := range out {
+		shown[i] = normName(k)
+	}
+	r.res.SchedHash = core.Mix(r.res.SchedHash, core.HashStr(strings.Join(shown, ",")))
+	r.logf("-- loop %d order %s", r.loopIdx, strings.Join(shown, ","))
 	if site == "engine.exec" {
 		r.em.onLoop(r)
 	}
@@ -396,7 +409,10 @@ func (r *run) visit(site, key string) {
 		return
 	}
 	r.phase, r.curRule, r.visitSeq = "eval", key, r.seq+1
-	r.logf("-- visit %s", key)
+	r.logf("-- visit %s", normName(key))
+	if r.yield != nil {
+		r.yield("visit")
+	}
 }
 
 // Listener callbacks -----------------------------------------------------------------------
@@ -502,6 +518,32 @@ func prepareFacts(f *grl.Facts, hooks *grl.Hooks) (*realFacts, error) {
 
 // RunOn executes the scenario's call on an existing instance (also used by the history simulation).
 func RunOn(sc *core.Scenario, kb *ast.KnowledgeBase, res *Result) {
+	h := Prepare(sc, kb, res)
+	if h == nil {
+		return
+	}
+	prevOrder, prevStep := simhook.Order, simhook.Step
+	simhook.Order = h.Order
+	simhook.Step = h.Visit
+	h.Execute()
+	simhook.Order, simhook.Step = prevOrder, prevStep
+}
+
+// Handle is a prepared run whose hooks the caller routes itself (used by the concurrency
+// simulation, where several runs are alive at once and a dispatcher owns the global hooks).
+type Handle struct {
+	r  *run
+	kb *ast.KnowledgeBase
+}
+
+func (h *Handle) Order(site string, keys []string) []string { return h.r.order(site, keys) }
+func (h *Handle) Visit(site, key string)                     { h.r.visit(site, key) }
+
+// SetYield installs a function called at every seam event, hook call and listener callback.
+func (h *Handle) SetYield(f func(site string)) { h.r.yield = f }
+
+// Prepare builds the run state (facts, model, wrappers) without touching global hooks.
+func Prepare(sc *core.Scenario, kb *ast.KnowledgeBase, res *Result) *Handle {
 	r := &run{sc: sc, res: res, mode: sc.Knobs.Mode, phase: "idle"}
 	if r.mode == "" {
 		r.mode = "execute"
@@ -517,18 +559,20 @@ func RunOn(sc *core.Scenario, kb *ast.KnowledgeBase, res *Result) {
 	rf, err := prepareFacts(sc.Facts, r.factHooks)
 	if err != nil {
 		res.HarnessErr = "facts: " + err.Error()
-		return
+		return nil
 	}
 	r.real = rf
 	r.em = newEModel(sc)
 	r.em.before = grl.Canon(rf.State())
+	r.lsnSeq = make([][]string, sc.Knobs.Listeners)
+	return &Handle{r: r, kb: kb}
+}
+
+// Execute calls the engine and judges the outcome.
+func (h *Handle) Execute() {
+	r, kb := h.r, h.kb
+	sc, res, rf := r.sc, r.res, r.real
 	nl := sc.Knobs.Listeners
-	r.lsnSeq = make([][]string, nl)
-
-	prevOrder, prevStep := simhook.Order, simhook.Step
-	simhook.Order = r.order
-	simhook.Step = r.visit
-
 	dctx := &seams.DataContext{Inner: rf.ctx, Sink: r}
 	eng := &engine.GruleEngine{MaxCycle: sc.Knobs.MaxCycle, ReturnErrOnFailedRuleEvaluation: sc.Knobs.RetErr}
 	for i := 0; i < nl; i++ {
@@ -550,7 +594,6 @@ func RunOn(sc *core.Scenario, kb *ast.KnowledgeBase, res *Result) {
 		}
 		return nil
 	}()
-	simhook.Order, simhook.Step = prevOrder, prevStep
 
 	res.Events = r.seq
 	res.SimNs = r.now
@@ -590,6 +633,14 @@ func RunOn(sc *core.Scenario, kb *ast.KnowledgeBase, res *Result) {
 	for _, m := range matched {
 		res.Matched = append(res.Matched, m.RuleName)
 	}
+}
+
+// normName hides the identifier part of a tombstone name: it is an id, not behaviour.
+func normName(k string) string {
+	if strings.HasPrefix(k, "Deleted_") {
+		return "Deleted_#"
+	}
+	return k
 }
 
 // helpers ------------------------------------------------------------------------------------
